@@ -1,5 +1,5 @@
 \* mutant: a second number-0 message restarts the stream
-CONSTANTS Streams <- MCStreams Choices <- ChXReFin BadBatches <- MCBad InitHeight = 1 MaxHeight = 1
+CONSTANTS Streams = {1} Choices <- ChXOne BadBatches <- MCBad InitHeight = 1 MaxHeight = 1
   InputCap = 4 OutCap = 1 MaxDup = 2 MaxExtra = 5 MaxGot = 2
   FixNilState = TRUE FixBlock = TRUE FixReFin = TRUE SeqWindow = 8 BufBound = 8 Mut = "restart"
 INIT Init
